@@ -13,7 +13,8 @@ SPEC = {
              "section); 1-label question + pointer-to-pointer + SOA/MX rdata with compressed names + root owner; question + additional "
              "only; no question, authority pointing into answer rdata. Runs (each x add_query/add_answer/add_authority/add_additional): "
              "R1 {A,CNAME} x {'a','a.b.example.com'} (16 ops); R2 {MX, SOA, TXT, NULL/opaque with root owner} (16 ops); R3 {NS,PTR,AAAA} x "
-             "{34-label ip6.arpa name, 255-octet name, 63-octet label} (36 ops); R3 restricted to each of the three names (12 ops each). "
+             "{34-label ip6.arpa name, 255-octet name, 63-octet label} (36 ops); R3 restricted to each of the three names and to a second "
+             "255-octet name of five labels ending in a 1-octet label (12 ops each). "
              "Depth: quick R1/R2/R3-sub 4, R3 3; thorough R1/R2/R3-sub 6, R3 4 - every sequence up to the depth. On every transition: "
              "questions/answers/authority/additional counts = model; queries(), answers(), authority(), additional() (called on a copy "
              "whose buffer has no slack capacity) = model sections in order with fully expanded names, type, class, ttl, MX preference and "
@@ -24,10 +25,13 @@ SPEC = {
              "chains of 0..130 jumps, pointer to itself / cycles with and without labels, forward pointers, out-of-range pointers "
              "(into the header, message size +0/+1/+2/+257, 0x3ffe/0x3fff, last octet), labels running past the end (behind a pointer and as "
              "the very end of the message for NS/CNAME/PTR/MX/SOA rdata), names of 255/256/257/321 octets inline and through a pointer, 127 "
-             "and 128 labels, reserved label types; and every compression pointer of every seed message re-targeted to every offset "
+             "and 128 labels; every dotted length 250..260 (encoded 252..262 octets) x 6 label splits (4..5 labels with a last label of 1..3 "
+             "octets or the remainder, 5 equal labels, one-octet labels) x {inline, 1 label + pointer, all but the last label + pointer, pointer "
+             "only}: encoded <= 255 must be shown exactly, 256..257 (still fits libtins' 256-byte text buffer) shown exactly or refused, >= 258 "
+             "must be refused with a libtins exception; reserved label types; and every compression pointer of every seed message re-targeted to every offset "
              "(quick: 0..size+5 and boundary values; thorough: all 16384 values). Constructor and the four getters must return or throw a "
              "class derived from Tins::exception_base, with no sanitizer report (message in an exactly sized heap block); legal cases "
-             "(chains <= 4 jumps, 255-octet names, 127 labels) must be shown correctly; a cleanly parsed message that the reference decoder "
+             "(chains <= 4 jumps, names up to 255 octets, 127 labels) must be shown correctly; a cleanly parsed message that the reference decoder "
              "also accepts must show the reference decoder's sections. distinct_nontrivial = product states with records in >= 2 sections "
              "(plus distinct (family, position, outcome) triples of shape B)."),
     "claim": ("Every sequence of insertions up to the depth bound, from each of the six initial messages and within each alphabet run, is "
@@ -39,6 +43,8 @@ SPEC = {
     "assumptions": ["records inserted through the API are well-formed (valid addresses for A/AAAA, labels <= 63 octets, names <= 255 octets)",
                     "MX preference is only compared for MX records (documented as valid for MX only)",
                     "a pointer chain longer than 4 jumps may be rejected with a libtins exception (libtins caps chains at 30)",
-                    "malformed input may also be parsed cleanly; only memory safety and the exception class are required there",
+                    "malformed input may also be parsed cleanly (only memory safety and the exception class are required there), except names whose dotted form "
+                    "exceeds 255 characters (encoded > 257 octets): those must be refused",
+                    "names of 256 or 257 encoded octets (above RFC 1035's 255, but accepted by libtins) may be shown exactly or refused",
                     "sanitizers: ASan+UBSan (alignment check off)"],
 }
